@@ -57,6 +57,15 @@ def tree_of(case):
     if t.get("sl"):
         files["sl.py"] = "s = 1\n"
         links["sl.py.license"] = "../sentinel/keep.txt"
+    if t.get("dsl"):
+        # dangling links at .license positions, pointing outside the project: a header that has to go to FILE.license
+        # (binary / uncommentable / unrecognised file, --force-dot-license) must not be written through them
+        files["dsl.py"] = "d = 1\n"
+        files["dpic.png"] = BINARY
+        files["dnotes.foo"] = "notes\n"
+        links["dsl.py.license"] = "../sentinel/new1.txt"
+        links["dpic.png.license"] = "../sentinel/new2.txt"
+        links["dnotes.foo.license"] = "../sentinel/new3.txt"
     return files, links
 
 
@@ -278,6 +287,8 @@ def gen_cmd(rng, case, modelled=True):
         pool += ["notes.foo", "notes.foo"]
     if case["tree"].get("sl"):
         pool += ["sl.py", "sl.py"]
+    if case["tree"].get("dsl"):
+        pool += ["dsl.py", "dpic.png", "dpic.png"] + (["dnotes.foo", "dnotes.foo"] if c["dot"] else [])
     if rng.random() < 0.06:
         pool += ["dangling.c"] * 4
     if rng.random() < 0.08:
@@ -314,7 +325,7 @@ class CommandStream(Stream):
     def gen_tree(self, rng):
         git = rng.random() < 0.6
         return {"git": git, "tracked": git and rng.random() < 0.6, "lic": rng.choice(["dep5", "dep5", "toml", "none"]),
-                "sibs": ["b.py"] if rng.random() < 0.3 else [], "sl": rng.random() < 0.3}
+                "sibs": ["b.py"] if rng.random() < 0.3 else [], "sl": rng.random() < 0.3, "dsl": rng.random() < 0.25}
 
     def cases(self, tier, rng):
         thorough = tier == "thorough"
@@ -330,6 +341,11 @@ class CommandStream(Stream):
             for dot in (None, "force"):
                 yield {"tree": {"git": False, "lic": "none", "sibs": [], "sl": True}, "terms": [],
                        "cmds": [{"cmd": "annotate", "dot": dot, "named": named}]}
+        # dangling links at the .license position of a binary, an unrecognised and a commentable file
+        for named, dot in ((["dpic.png"], None), (["dsl.py"], "force"), (["dnotes.foo"], "fallback"), (["dnotes.foo"], "force"),
+                           (["a.c", "dpic.png", "b.py"], None), (["dsl.py"], None)):
+            yield {"tree": {"git": False, "lic": "none", "sibs": [], "sl": False, "dsl": True}, "terms": [],
+                   "cmds": [{"cmd": "annotate", "dot": dot, "named": named}]}
         for _ in range(n1):
             case = {"tree": self.gen_tree(rng), "terms": rng.choice([[], [], ["*/"], ["-->"]])}
             case["cmds"] = [gen_cmd(rng, case, self.modelled)]
@@ -409,7 +425,7 @@ class CommandStream(Stream):
         snap0 = {n: ("file", "", 0, len(c)) for n, c in files.items()}
         below = ["\n".join([d] + sorted(covered_in(snap0, ignored, d))) for d in sorted(dirs) if d]
         world = ["0", "LICENSES"] + FETCHABLE
-        watch = sorted(cand | {"../sentinel/" + n for n in SENTINEL} | {"LICENSES/%s.txt" % i for i in FETCHABLE + ["Nope-1.0"]}
+        watch = sorted(cand | {"../sentinel/" + n for n in SENTINEL} | {"../sentinel/new%d.txt" % i for i in (1, 2, 3)} | {"LICENSES/%s.txt" % i for i in FETCHABLE + ["Nope-1.0"]}
                        | {"REUSE.toml", ".reuse/dep5", "out.spdx", "lic", "lic/COPYING", "LICENSES"})
         cmds = []
         for cmd in case["cmds"]:
@@ -597,7 +613,7 @@ PROPERTY = Property(
         "system-call whitelist: /tmp/, /dev/null, /dev/shm/pym-*, /dev/shm/sem.* (multiprocessing), /proc/, /dev/tty, __pycache__",
         "paths named on the command line that pass through a symbolic link to a directory (l_dir/out.py) are not generated: the "
         "named file itself then lies outside the project, and the property text does not say what should happen",
-        "a dangling symbolic link at a .license sibling position is not generated",
+        "dangling symbolic links at .license sibling positions are generated (tree flavour dsl); links reached through a symlinked directory are not",
         "the network is a stub (urllib.request.urlopen replaced in-process / inside the traced child); download is verified in depth "
         "under C19, here only its frame condition",
         "directories are compared by type and mode only (their time stamps change when an allowed entry is created below them)",
